@@ -33,6 +33,7 @@ type Instance struct {
 	Writer frontend.Writer
 	Query  *frontend.QueryService
 	Data   *frontend.DataService
+	Grpc   *frontend.GRPCService
 	Agg    *sqlparser.AggRunner
 	Meta   *executor.InstanceMetadata
 }
@@ -71,5 +72,6 @@ func Start(root string, o Opts) *Instance {
 	in.Query = c.GetHTTPService()
 	in.Agg = c.GetAggRunner()
 	in.Data = frontend.NewDataService(in.Root, in.Cat, in.Agg, in.Writer, in.Query)
+	in.Grpc = frontend.NewGRPCService(in.Root, in.Cat, in.Agg, in.Writer, in.Query)
 	return in
 }
